@@ -393,6 +393,8 @@ Definition u_jwt_rsa_pss_priv : bytes := Eval vm_compute in bytes_of_string url_
 Definition u_jwt_mldsa_pub : bytes := Eval vm_compute in bytes_of_string url_jwt_mldsa_pub.
 Definition u_mldsa_priv : bytes := Eval vm_compute in bytes_of_string url_mldsa_priv.
 Definition u_jwt_mldsa_priv : bytes := Eval vm_compute in bytes_of_string url_jwt_mldsa_priv.
+Definition u_composite_pub : bytes := Eval vm_compute in bytes_of_string url_composite_pub.
+Definition u_composite_priv : bytes := Eval vm_compute in bytes_of_string url_composite_priv.
 Definition u_c13_outside : list bytes := Eval vm_compute in map bytes_of_string c13_outside_urls.
 Definition u_unmodelled : list bytes := Eval vm_compute in map bytes_of_string unmodelled_urls.
 
@@ -456,6 +458,10 @@ Inductive pkd :=
 | PSlhDsa (private : bool)
 | PMlDsaPriv
 | PJwtMlDsaPriv
+| PComposite (private : bool) (classical_private : bool) (point : bytes) (seed : option bytes)
+      (* composite ML-DSA: is the classical half a PRIVATE key object (also possible inside a public
+         composite key, see parse_composite); the point of a classical ECDSA key ([] otherwise); the
+         seed of a classical Ed25519 private key *)
 | PFallback (private : bool).
 
 Definition okb (c : bool) (d : pkd) : outcome pkd := if c then Ok d else Err.
@@ -1102,9 +1108,9 @@ Definition parse_key_more (kd : keydata) (prefix idreq : N) : outcome pkd :=
   else if url_is kd u_jwt_mldsa_priv then parse_jwt_mldsa_priv kd prefix idreq
   else okb (known_prefix prefix) (PFallback (kd_mat kd =? km_private)).
 
-(* protoserialization.ParseKey: the parser registered for the type URL, or
-   the fallback key.  Err = the parser returns an error. *)
-Definition parse_key (kd : keydata) (prefix idreq : N) : outcome pkd :=
+(* The parsers of every key type that nests no other key (39 types), or the
+   fallback key.  Err = the parser returns an error. *)
+Definition parse_key_base (kd : keydata) (prefix idreq : N) : outcome pkd :=
   let v := kd_value kd in
   let fs := fields_or_nil v in
   let mat := kd_mat kd in
@@ -1242,6 +1248,107 @@ Definition parse_key (kd : keydata) (prefix idreq : N) : outcome pkd :=
         (PXAesGcm kl salt)
   else parse_key_more kd prefix idreq.
 
+(* ---- composite ML-DSA: signature/compositemldsa/{protoserialization,key,signer,verifier}.go,
+   internal/signature/compositemldsa/util.go ----
+   CompositeMlDsaPublicKey  { version = 1; ml_dsa_public_key = 2 (KeyData); classical_public_key = 3 (KeyData);
+                              params = 4 { ml_dsa_instance = 1; classical_algorithm = 2 } }
+   CompositeMlDsaPrivateKey: the same with private key data.
+   Each nested KeyData is handed to protoserialization.ParseKey with prefix RAW
+   and id requirement 0, i.e. to the parser of ITS OWN type URL (or the
+   fallback key; a composite key nested in a composite key recurses, each
+   level on a strictly shorter value); the composite constructor then keeps
+   the result only if it is an ML-DSA key (type assertion) resp. a classical
+   key whose parameters equal the ones expected for the classical algorithm.
+   A nested key of any other type therefore ends in an error whatever its own
+   parser says: the model refuses it without parsing. *)
+Definition sch_composite := Sch [(2, sch_keydata); (3, sch_keydata); (4, sch_scalar)] [].
+
+(* NewParameters: supportedParameterSets *)
+Definition composite_supported (inst alg : N) : bool :=
+  if inst =? mldsa_65 then
+    (alg =? calg_ed25519) || (alg =? calg_ecdsa_p256) || (alg =? calg_ecdsa_p384)
+    || (alg =? calg_rsa3072_pss) || (alg =? calg_rsa4096_pss) || (alg =? calg_rsa3072_pkcs1) || (alg =? calg_rsa4096_pkcs1)
+  else if inst =? mldsa_87 then
+    (alg =? calg_ecdsa_p384) || (alg =? calg_ecdsa_p521) || (alg =? calg_rsa3072_pss) || (alg =? calg_rsa4096_pss)
+  else false.
+
+(* classicalKey.Parameters().Equal(ParametersForClassicalAlgorithm(alg)) on the
+   key object the nested parser returned (variant NoPrefix holds by
+   construction: the nested key was parsed with prefix RAW) *)
+Definition comp_ecdsa_ok (alg curve hash enc : N) : bool :=
+  (enc =? enc_der)
+  && (((alg =? calg_ecdsa_p256) && (curve =? c_p256) && (hash =? h_sha256))
+      || ((alg =? calg_ecdsa_p384) && (curve =? c_p384) && (hash =? h_sha384))
+      || ((alg =? calg_ecdsa_p521) && (curve =? c_p521) && (hash =? h_sha512))).
+Definition comp_pss_ok (alg bits e hash salt : N) : bool :=
+  (e =? rsa_f4)
+  && (((alg =? calg_rsa3072_pss) && (bits =? comp_rsa_bits_a) && (hash =? h_sha256) && (salt =? comp_pss_salt_a))
+      || ((alg =? calg_rsa4096_pss) && (bits =? comp_rsa_bits_b) && (hash =? h_sha384) && (salt =? comp_pss_salt_b))).
+Definition comp_pkcs1_ok (alg bits e hash : N) : bool :=
+  (e =? rsa_f4)
+  && (((alg =? calg_rsa3072_pkcs1) && (bits =? comp_rsa_bits_a) && (hash =? h_sha256))
+      || ((alg =? calg_rsa4096_pkcs1) && (bits =? comp_rsa_bits_b) && (hash =? h_sha384))).
+
+(* The composite key object made of an accepted classical key object.
+   NewPrivateKey needs a classical key that exposes PublicKey(): a private
+   key.  NewPublicKey only compares classicalKey.Parameters() with the expected
+   parameters - which the PRIVATE key of the same parameters satisfies too: a
+   public composite key accepts a classical private key in its
+   classical_public_key slot (reported as a finding; transcribed as coded). *)
+Definition composite_of_classical (private : bool) (alg : N) (d : pkd) : outcome pkd :=
+  match d with
+  | PEd25519Pub => okb (negb private && (alg =? calg_ed25519)) (PComposite private false [] None)
+  | PEcdsaPub curve hash enc pt => okb (negb private && comp_ecdsa_ok alg curve hash enc) (PComposite private false pt None)
+  | PRsaPssPub bits e hash salt => okb (negb private && comp_pss_ok alg bits e hash salt) (PComposite private false [] None)
+  | PRsaPkcs1Pub bits e hash => okb (negb private && comp_pkcs1_ok alg bits e hash) (PComposite private false [] None)
+  | PEd25519Priv seed => okb (alg =? calg_ed25519) (PComposite private true [] (Some seed))
+  | PEcdsaPriv curve hash enc pt _ => okb (comp_ecdsa_ok alg curve hash enc) (PComposite private true pt None)
+  | PRsaPriv true bits e hash salt => okb (comp_pss_ok alg bits e hash salt) (PComposite private true [] None)
+  | PRsaPriv false bits e hash _ => okb (comp_pkcs1_ok alg bits e hash) (PComposite private true [] None)
+  | _ => Err
+  end.
+
+Definition parse_composite (private : bool) (kd : keydata) (prefix idreq : N) : outcome pkd :=
+  let v := kd_value kd in
+  let fs := fields_or_nil v in
+  if negb (kd_mat kd =? (if private then km_private else km_public)) then Err else
+  if negb (wire_ok sch_composite v) then Err else
+  let inst := get_u32 1 (get_sub 4 fs) in
+  let alg := get_u32 2 (get_sub 4 fs) in
+  let mkd := keydata_of (get_sub 2 fs) in            (* ml_dsa_{public,private}_key *)
+  let ckd := keydata_of (get_sub 3 fs) in            (* classical_{public,private}_key *)
+  if negb ((get_u32 1 fs =? 0) && ((prefix =? pt_tink) || (prefix =? pt_raw))
+           && composite_supported inst alg && has_sub 2 fs && has_sub 3 fs) then Err
+  else
+    (* the nested ML-DSA key: its own parser, prefix RAW, no id requirement; its
+       parameters must be the ones of the composite's instance *)
+    let mfs := fields_or_nil (kd_value mkd) in
+    let minst := if private then get_u32 1 (get_sub 3 (get_sub 3 mfs)) else get_u32 1 (get_sub 3 mfs) in
+    let mres := if private
+                then (if url_is mkd u_mldsa_priv then parse_mldsa_priv mkd pt_raw 0 else Err)
+                else (if url_is mkd u_mldsa_pub then parse_mldsa_pub mkd pt_raw 0 else Err) in
+    bind mres (fun _ =>
+    let cpriv := url_is ckd u_ed25519_priv || url_is ckd u_ecdsa_priv || url_is ckd u_rsa_pss_priv || url_is ckd u_rsa_pkcs1_priv in
+    let callowed := if private then cpriv
+                    else cpriv || url_is ckd u_ed25519_pub || url_is ckd u_ecdsa_pub || url_is ckd u_rsa_pss_pub || url_is ckd u_rsa_pkcs1_pub in
+    if negb callowed then Err
+    else bind (parse_key_base ckd pt_raw 0) (fun cd =>
+         if negb (minst =? inst) then Err else composite_of_classical private alg cd)).
+
+(* protoserialization.ParseKey: the parser registered for the type URL, or
+   the fallback key.  Err = the parser returns an error. *)
+Definition parse_key (kd : keydata) (prefix idreq : N) : outcome pkd :=
+  if url_is kd u_composite_pub then parse_composite false kd prefix idreq
+  else if url_is kd u_composite_priv then parse_composite true kd prefix idreq
+  else parse_key_base kd prefix idreq.
+
+(* ecdsa.NewVerifier / NewSigner on an uncompressed point:
+   xy := publicPoint[1:]; xy[:len(xy)/2]; xy[len(xy)/2:] *)
+Definition ecdsa_point_slices (pt : bytes) : outcome bool :=
+  bind (slice 1 (length pt) pt) (fun xy =>
+  bind (slice 0 (Nat.div (length xy) 2) xy) (fun _ =>
+  bind (slice (Nat.div (length xy) 2) (length xy) xy) (fun _ => Ok true))).
+
 (* The primitive constructor registered for the key type (what
    registryconfig.PrimitiveFromKey reaches): Ok true = a primitive is
    returned, Ok false = error. *)
@@ -1316,6 +1423,16 @@ Definition prim_ok (d : pkd) : outcome bool :=
   | PSlhDsa _ => Ok true
   | PMlDsaPriv => Ok true            (* mldsa.NewSigner: the expanded key of the seed *)
   | PJwtMlDsaPriv => Ok true         (* createJWTMLDSASigner: mldsa.NewPrivateKey(seed) + NewSigner *)
+  | PComposite false true _ _ => Ok false     (* newClassicalVerifier: a private key object is no public key type *)
+  | PComposite _ _ pt seed =>
+      (* compositemldsa.NewVerifier / NewSigner: the ML-DSA half, then newClassicalVerifier /
+         newClassicalSigner = the constructor of the classical key (its parameters are fixed by
+         the composite algorithm: RSA 3072/4096 with e = 65537, the ECDSA point, the Ed25519 seed) *)
+      bind (match pt with [] => Ok true | _ => ecdsa_point_slices pt end) (fun _ =>
+      match seed with
+      | Some sd => bind (ed25519_from_seed sd) (fun _ => Ok true)
+      | None => Ok true
+      end)
   | PFallback _ => Ok false
   end.
 
@@ -1325,9 +1442,10 @@ Definition more_material (d : pkd) : N :=
   match d with
   | PEd25519Pub => km_public
   | PEd25519Priv _ | PRsaPriv _ _ _ _ _ | PEcies true _ _ _ | PHpke true _
-  | PJwtEcdsa true _ _ | PSlhDsa true | PJwtRsaPriv _ _ _ _ _ _ _ _ | PMlDsaPriv | PJwtMlDsaPriv => km_private
+  | PJwtEcdsa true _ _ | PSlhDsa true | PJwtRsaPriv _ _ _ _ _ _ _ _ | PMlDsaPriv | PJwtMlDsaPriv
+  | PComposite true _ _ _ => km_private
   | PEcies false _ _ _ | PHpke false _ | PJwtEcdsa false _ _ | PJwtRsaPub _ _ _ | PMlDsaPub | PSlhDsa false
-  | PJwtMlDsaPub => km_public
+  | PJwtMlDsaPub | PComposite false _ _ _ => km_public      (* what the serializer writes, whatever the classical half is *)
   | PStreamGcmHkdf _ _ _ | PStreamCtrHmac _ _ _ _ _ | PJwtHmac _ _ => km_symmetric
   | _ => km_unknown
   end.
@@ -1347,7 +1465,8 @@ Definition modelled_url (kd : keydata) : bool :=
   || url_is kd u_jwt_rsa_pkcs1_pub || url_is kd u_jwt_rsa_pss_pub
   || url_is kd u_mldsa_pub || url_is kd u_slhdsa_pub || url_is kd u_slhdsa_priv
   || url_is kd u_jwt_rsa_pkcs1_priv || url_is kd u_jwt_rsa_pss_priv || url_is kd u_jwt_mldsa_pub
-  || url_is kd u_mldsa_priv || url_is kd u_jwt_mldsa_priv.
+  || url_is kd u_mldsa_priv || url_is kd u_jwt_mldsa_priv
+  || url_is kd u_composite_pub || url_is kd u_composite_priv.
 Definition unmodelled_url (kd : keydata) : bool :=
   existsb (fun u => url_is kd u) u_unmodelled.
 (* outside the 16 key types C13 (model/Secrets.v) was built on *)
